@@ -272,3 +272,20 @@ func canReach(x, y ssa.Instruction) bool {
 	r := reachableFrom(x.Block().Succs...)
 	return r[y.Block()]
 }
+
+// WhoMayWriteDirect: like WhoMayWrite but only stores addressed at the field itself (not whole-struct replacements).
+func (a *An) WhoMayWriteDirect(rule string, target *types.Var, allowed ...string) {
+	if target == nil {
+		return
+	}
+	allow := map[string]bool{}
+	for _, s := range allowed {
+		allow[s] = true
+	}
+	for _, st := range a.DirectStoresTo(target) {
+		fn := a.C.Name(st.Parent())
+		key := "write|" + target.Name() + "|" + fn
+		a.R.Check(allow[fn], rule, key, "store to "+target.Name()+" only in "+strings.Join(allowed, ", "), a.C.InstrPos(st),
+			fn+" writes "+target.Name()+" but is not one of the designated writers")
+	}
+}
